@@ -127,6 +127,7 @@ def eng_limbcov(f, sub, prop):
     nfull = limbcov.run_limbcov(f, sub, prop, flt)
     nret = limbcov.run_limbdeps(f, sub, prop, flt)
     limbcov.run_limbseq(f, sub, prop, flt)
+    limbcov.run_widecov(f, sub, prop, flt)
     if prop in ("C05", "C18"):
         if limbcov.run_fullwrite(f, sub, prop) < 10:
             sub.oblige(ok=False)
@@ -307,6 +308,18 @@ def eng_hashreset(f, sub, prop):
 ENGINES["hashreset"] = eng_hashreset
 
 
+def eng_widecov(f, sub, prop):
+    from . import limbcov
+    from .ctflow import norm_name
+    n = limbcov.run_widecov(f, sub, prop, lambda fn: norm_name(fn["name"]).startswith(("crrl::sha2::", "crrl::sha3::", "crrl::blake2s::")))
+    if n < 5:
+        sub.oblige(ok=False)
+        sub.add(Finding("K6", "anchor", "limbcov K6: only %d 64-bit parameters / field copies found in the hash modules (floor 5)" % n, config=f.config, prop=prop))
+
+
+ENGINES["widecov"] = eng_widecov
+
+
 def eng_loops(f, sub, prop):
     from . import loopprog
     n = loopprog.run_loops(f, sub, prop)
@@ -330,7 +343,8 @@ ENGINES["flaginit"] = eng_flaginit
 GATE_TEXT["C17"] = ("Two structural clauses of C17: G7a for each hash context type, reset() (transitively) writes every field "
                     "that new() initialises, except the reviewed configuration / dead-buffer fields; G7b every public function "
                     "named *reset* or documented as automatically resetting reaches its return only through a call that resets "
-                    "self. NOT decided: digest values, padding boundaries, chunking independence, SHAKE stream continuity.")
+                    "self; K6 no 64-bit byte counter (parameter or copy of a field) of the hash modules is consumed only through a "
+                    "truncation to 32 bits. NOT decided: digest values, padding boundaries, chunking independence, SHAKE stream continuity.")
 
 
 def eng_p4(f, sub, prop):
@@ -371,7 +385,7 @@ def check_C18(tier):
         extra_cov=dict(configs=cfgs, reference_api_items=nref, sibling_pairs_compared=n5, per_config=stats))
 
 
-CHECKS = {"C17": check_gates("C17", ["hashreset"]), "C18": check_C18, "C20": check_gates("C20", ["maskdom", "muxshape", "limbcov"]), "C05": check_gates("C05", ["gates", "limbcov"]), "C06": check_gates("C06", ["gates", "limbcov"]), "C07": check_gates("C07", ["gates", "limbcov"]),
+CHECKS = {"C17": check_gates("C17", ["hashreset", "widecov"]), "C18": check_C18, "C20": check_gates("C20", ["maskdom", "muxshape", "limbcov"]), "C05": check_gates("C05", ["gates", "limbcov"]), "C06": check_gates("C06", ["gates", "limbcov"]), "C07": check_gates("C07", ["gates", "limbcov"]),
           "C08": check_gates("C08", ["gates", "limbcov"]), "C09": check_gates("C09", ["gates", "limbcov"]),
           "C15": check_gates("C15", ["gates", "totality", "limbcov"]), "C16": check_gates("C16", ["gates"]),
           "C02": check_C02, "C04": check_C04, "C13": check_gates("C13", ["uxcomp", "gates", "limbcov"], level="exploration"),
